@@ -5,6 +5,7 @@
 (* A vector is four lanes; every vector operation is specified lane-wise.  *)
 (***************************************************************************)
 EXTENDS Montgomery, Ristretto, TraceBase
+IF_ == INSTANCE IfmaField
 
 \* local copy of TraceField's limb valuation (kept here so that this module is self-contained)
 VShifts51  == <<0, 51, 102, 153, 204>>
@@ -35,11 +36,40 @@ VecExpected(e) ==
 \* documented post-bounds (AVX2 lanes): a bound claimed by the generator for this result ("bound" = excess bits x 1000)
 VecBoundOK(e) ==
   ~Has(e, "bound_even") \/ (BLe(e.obs.max_even, e.bound_even) /\ BLe(e.obs.max_odd, e.bound_odd))
+\* ---- IFMA lanes (five 64-bit limbs): the kernels are specified LIMB-EXACTLY by IfmaField.tla, so the observed limbs - not
+\* only the field values - must equal the model's; products of legal multiplicands must not wrap any accumulator
+IsIfma(e) == e.op \in {"vec.op1", "vec.op2", "vec.mul_consts"} /\ Has(e.obs, "vkind") /\ e.obs.vkind = "ifma"
+IL(v) == [i \in 1..4 |-> v[i].limbs]
+IfmaLimbsExpected(e) ==
+  LET o == e.obs
+      a == IL(o.ins[1])
+      b == IF Len(o.ins) >= 2 THEN IL(o.ins[2]) ELSE <<>>
+  IN CASE e.op = "vec.mul_consts" -> [i \in 1..4 |-> IF_!MulConst(a[i], e.c[i])]
+       [] e.op = "vec.op1" ->
+           (CASE e.f = "reduce" -> [i \in 1..4 |-> IF_!Reduce(a[i])]
+              [] e.f = "negate_lazy" -> [i \in 1..4 |-> IF_!NegateLazy(a[i])]
+              [] e.f = "neg" -> [i \in 1..4 |-> IF_!Neg(a[i])]
+              [] e.f = "diff_sum" -> IF_!DiffSum(a)
+              [] e.f = "square" -> [i \in 1..4 |-> IF_!Square(a[i])]
+              [] e.f = "shuffle" -> [i \in 1..4 |-> a[e.perm[i]]])
+       [] e.op = "vec.op2" ->
+           (CASE e.f = "mul" -> [i \in 1..4 |-> IF_!Mul(a[i], b[i])]
+              [] e.f = "add" -> [i \in 1..4 |-> IF_!AddL(a[i], b[i])]
+              [] e.f = "blend" -> [i \in 1..4 |-> IF e.mask[i] = 1 THEN b[i] ELSE a[i]])
+IfmaNoWrap(e) ==
+  LET a == IL(e.obs.ins[1]) IN
+  CASE e.op = "vec.op2" /\ e.f = "mul" ->
+         LET b == IL(e.obs.ins[2]) IN \A i \in 1..4 : (IF_!IsReduced(a[i]) /\ IF_!IsReduced(b[i])) => (IF_!MulNoWrap(a[i], b[i]) /\ IF_!FoldedFit(a[i], b[i]))
+    [] e.op = "vec.op1" /\ e.f = "square" -> \A i \in 1..4 : IF_!IsReduced(a[i]) => (IF_!MulNoWrap(a[i], a[i]) /\ IF_!FoldedFit(a[i], a[i]))
+    [] OTHER -> TRUE
+IfmaExact(e) == ~IsIfma(e) \/ (IL(e.obs.r) = IfmaLimbsExpected(e) /\ IfmaNoWrap(e))
 VecStep ==
   /\ l <= Len(Rec) /\ Rec[l].op \in VecOps
   /\ LET e == Rec[l] IN
        IF ~NoPanic(e) THEN Note(FALSE, e, "panic")
-       ELSE LET x == VecExpected(e) IN Note(LanesAre(e.obs.r, x) /\ VecBoundOK(e), e, x)
+       ELSE LET x == VecExpected(e) IN
+            IF LanesAre(e.obs.r, x) /\ VecBoundOK(e) THEN Note(IfmaExact(e), e, [ifma_limbs |-> IfmaLimbsExpected(e)])
+            ELSE Note(FALSE, e, x)
   /\ l' = l + 1 /\ UNCHANGED regs
 
 \* ---- parallel point formulas -------------------------------------------------------------
